@@ -1136,7 +1136,10 @@ def lazy_family():
 
 def engine_modelled(rc):
     """The pattern is in the language of Model/RegexEngine.v and the subject is ASCII (case folding)."""
-    return rc["s"].isascii() and c19_regex.modelled(rc["pat"])
+    if not (rc["s"].isascii() and c19_regex.modelled(rc["pat"])):
+        return False
+    # the Gallina engine's fuel bounds recursion depth, not total work: catastrophically backtracking cases stay with re
+    return c19_regex.within_budget(rc["pat"], rc["flags"], rc["s"])
 
 
 def eop_term(rc):
@@ -2062,6 +2065,9 @@ def correspondence(run):
         else:
             oracle_idx.append(i)
             run.count("regex.oracle-only")
+            if c19_regex.modelled(rc["pat"]) and rc["s"].isascii():
+                run.cov["skipped"] += 1
+                run.count("regex.engine-too-many-steps(oracle used)")
             if len(run.cov["uncovered"]) < 12 and not c19_regex.modelled(rc["pat"]):
                 run.cov["uncovered"].append("pattern outside the modelled regex language (re oracle used): %r" % rc["pat"])
     eterms = [ecase_term(meta[i][0], meta[i][2]) for i in engine_idx]
